@@ -150,9 +150,12 @@ class Observer(object):
             return "J" + sha(data)[:16], None
         return "D" + db_desc(info), info
 
-    def directory(self, d, tmpmap):
+    def directory(self, d, tmpmap, initial=None):
         """-> (descriptor string, {model name: sha}, infos, journals).  `tmpmap` maps real
-        temporary names to model names (filled on the way)."""
+        temporary names to model names (filled on the way).  A temporary file is a sibling `<db>.<anything>`
+        that was not there before the run (`initial`: the names the scenario started with) -- how the
+        implementation spells the random part is its own business (mkstemp's 8 characters, a `.tmp` suffix, ...);
+        a file that WAS there before is never a temporary file, whatever its name."""
         entries, shas, infos, journals = [], {}, {}, []
         for fn in sorted(os.listdir(d)):
             p = os.path.join(d, fn)
@@ -160,7 +163,8 @@ class Observer(object):
                 journals.append(fn)
                 continue
             name = fn
-            if re.match(r"^" + re.escape(DB) + r"\.[A-Za-z0-9_]{8}$", fn):
+            if (re.match(r"^" + re.escape(DB) + r"\.[A-Za-z0-9_]{8}$", fn) and (initial is None or fn not in initial)) \
+                    or (initial is not None and fn not in initial and fn.startswith(DB + ".")):
                 if fn not in tmpmap:
                     tmpmap[fn] = DB + (".TMP" if not tmpmap else ".TMP%d" % (len(tmpmap) + 1))
                 name = tmpmap[fn]
